@@ -90,6 +90,8 @@ def evaluate(t, env, tables):
         return int({"eq": a == b, "ne": a != b, "ult": a < b, "ule": a <= b, "ugt": a > b, "uge": a >= b}[t[1]])
     if k == "not":
         return 1 - evaluate(t[1], env, tables)
+    if k == "sel":
+        return evaluate(t[2], env, tables) if evaluate(t[1], env, tables) else evaluate(t[3], env, tables)
     raise AnalysisBroken("termeval: term %r" % (t,))
 
 
